@@ -52,8 +52,9 @@ class PHYResetController(Elaboratable):
     def elaborate(self, platform):
         m = Module()
 
-        # Counter that stores how many cycles we've spent in reset.
-        cycles_in_reset = Signal(range(0, self.reset_length_cycles))
+        # Counter that stores how many cycles we've spent in reset; it's also used to time
+        # our stop period, so it needs to be able to count up to the longer of the two.
+        cycles_in_reset = Signal(range(0, max(self.reset_length_cycles, self.stop_length_cycles)))
 
         reset_state = 'RESETTING' if self.power_on_reset else 'IDLE'
         with m.FSM(init=reset_state, domain='sync') as fsm:
